@@ -433,6 +433,11 @@ class ObResult:
 
 
 def _path_assumptions(path, mk, goal_terms, extra_seeds=()):
+    with C.activate(path.ctx):
+        return _path_assumptions_(path, mk, goal_terms, extra_seeds)
+
+
+def _path_assumptions_(path, mk, goal_terms, extra_seeds=()):
     base = list(mk.requires) + list(path.pc) + list(path.aux)
     facts = list(mk.facts) + list(path.facts)
     inst = solve.instantiate(facts, base + [g for g in goal_terms if alg.is_sym(g)], path.index_funcs, seeds=list(path.index_seeds) + list(extra_seeds))
@@ -580,6 +585,14 @@ def _check_infeasible(ob, path, mk, timeout_ms, why="", extra=()):
     return False
 
 
+def _each(paths):
+    """iterate paths with the path's (frozen) context active, so lazily evaluated model closures and
+    contract clauses can consult it"""
+    for p in paths:
+        with C.activate(p.ctx):
+            yield p
+
+
 def _exc_site(exc):
     tb = exc.__traceback__
     site = None
@@ -602,6 +615,30 @@ def verify_case(T, case, timeout_ms=None, want=None, exclude=None):
     exclude = exclude or {}
     cname = case.name
     out = []
+    if getattr(case, "is_lemma", False):
+        for nm, assumptions, goal in case.lemmas():
+            short = "lemma." + nm
+            if not want(short):
+                continue
+            ob = ObResult("%s:%s" % (cname, short), "lemma")
+            ob.short = short
+            steps = assumptions if goal is None else [(assumptions, goal)]
+            for (asm, gl) in steps:
+                v, s_ = solve.prove([alg.lift(a) for a in asm], gl, timeout_ms)
+                _merge(ob, v)
+                if not ob.size:
+                    ob.size = len(alg.lift(gl).sexpr())
+                    ob.sample = "(assert (not %s))" % alg.lift(gl).sexpr()[:600]
+                if v.status == "sat":
+                    ob.status = "refuted"
+                    ob.detail = "lemma step refuted: %s" % (str(v.model)[:400] if v.model is not None else "")
+                    break
+                if v.status != "unsat":
+                    ob.status = "undecided"
+                    ob.detail = "unknown(%s)" % v.reason
+                    break
+            out.append(ob)
+        return out
     try:
         run = explore_case(T, case)
     except C.Unsupported as e:
@@ -638,7 +675,7 @@ def verify_case(T, case, timeout_ms=None, want=None, exclude=None):
     ob_nr = mkob("no-raise", "no-raise")
     ob_ml = mkob("within-number-model", "model-limit")
     declared = {}
-    for p in raising:
+    for p in _each(raising):
         penv = p.env[0]
         rcl = case.raises(penv)
         if isinstance(p.value, C.ModelLimit):
@@ -671,7 +708,7 @@ def verify_case(T, case, timeout_ms=None, want=None, exclude=None):
         declared.setdefault(short, mkob(short, "raises"))
         short2 = "raises.%s.whenever" % nm
         ob2 = mkob(short2, "raises")
-        for p in rets:
+        for p in _each(rets):
             (E2, nm2, cond2) = [c for c in case.raises(p.env[0]) if c[1] == nm][0]
             if ob2.status != "discharged":
                 break
@@ -721,7 +758,7 @@ def verify_case(T, case, timeout_ms=None, want=None, exclude=None):
 
     # ---- loop cuts: establishment and preservation of the invariants (all paths)
     lobs = {}
-    for p in paths:
+    for p in _each(paths):
         for (phase, lname, n_, goal) in p.loop_obligations:
             ki = z3.Int("k!loop")
             parts = goal(ki)
@@ -741,7 +778,7 @@ def verify_case(T, case, timeout_ms=None, want=None, exclude=None):
     obs = {}
     canary_refuted = False
     any_array = False
-    for p in rets:
+    for p in _each(rets):
         penv = p.env[0]
         res = Res(p.value)
         res.stats, res.path = p.stats, p
